@@ -63,6 +63,9 @@ var traceSpecC01 = traceSpec{Ops: []string{"text"}, Params: genParams{MaxNodes: 
 var traceSpecBig = traceSpec{Ops: []string{"text", "walk"}, Params: genParams{MinNodes: 350, MaxNodes: 700, MaxDepth: 6, MaxRoots: 40, NChunks: 16, Hostile: true}, NQuick: 4, NThorough: 40}
 
 // chains of only children 66 - 90 levels deep with a few siblings on the way
+// one level of 300-450 siblings, every fifth with children of its own
+var traceSpecFan = traceSpec{Ops: []string{"text", "walk"}, Params: genParams{MinNodes: 10, MaxNodes: 40, MaxDepth: 5, MaxRoots: 3, NChunks: 16, Fan: 300}, NQuick: 3, NThorough: 24}
+
 var traceSpecDeep = traceSpec{Ops: []string{"text", "walk"}, Params: genParams{MinNodes: 100, MaxNodes: 140, MaxDepth: 120, MaxRoots: 2, NChunks: 8, Chain: 66}, NQuick: 3, NThorough: 30}
 
 func classifyErr(err error, c *tok.Conc) (string, []string) {
